@@ -859,7 +859,20 @@ func checkSelection(a *Analyzer, r *Results, id, rule string, pr []string, leade
 					continue
 				}
 				lc := a.NewFCtx(less, a.EntryEnv(less, nil), 0)
-				rets, _ := a.Returns(funcID(less), nil)
+				// what the comparator captures (e.g. a local key-function closure) is bound to its value at the sort call
+				roots := map[string]*Term{}
+				if mc, ok := c.Call.Args[1].(*ssa.MakeClosure); ok {
+					gc := a.NewFCtx(g, a.EntryEnv(g, nil), 0)
+					for i, fv := range less.FreeVars {
+						if i < len(mc.Bindings) {
+							bt := gc.Term(mc.Bindings[i])
+							if bt.Contains(func(t *Term) bool { return t.Op == "closure" || t.Op == "func" }) {
+								roots[fv.Name()] = bt
+							}
+						}
+					}
+				}
+				rets, _ := a.Returns(funcID(less), roots)
 				for _, e := range rets {
 					t := e.Args[0]
 					_ = lc
